@@ -291,6 +291,9 @@ fn sentinel<L: Language + 'static>(counter: Rc<Cell<usize>>) -> Rewrite<L> {
 
 fn judge<L: Language + 'static>(mut w: World<L>, rng: &mut Rng, out: &mut CaseOut) {
     let cj = J::obj(vec![("setup", J::arr_s(&w.desc))]);
+    if std::env::var("VERIF_TRACE").is_ok() {
+        eprintln!("C15 setup: {:?}", w.desc);
+    }
     macro_rules! bad {
         ($sig:expr, $($arg:tt)*) => {{
             out.fail(Fail::new("untruthful-report", $sig, format!($($arg)*), cj.clone()));
